@@ -7,9 +7,11 @@ cd /repo || exit 1
 [ -z "$(git status --porcelain)" ] || { echo "/repo not clean"; exit 1; }
 if git apply --check "$d/patch.diff" 2>/dev/null; then echo "applies cleanly"; exit 0; fi
 [ -f "$d/patch.orig.diff" ] || cp "$d/patch.diff" "$d/patch.orig.diff"
-if patch -p1 --fuzz=3 --no-backup-if-mismatch < "$d/patch.orig.diff" >/dev/null; then
+cp "$d/patch.diff" "$d/.patch.cur"
+if patch -p1 --fuzz=3 --no-backup-if-mismatch < "$d/.patch.cur" >/dev/null 2>&1 || { git checkout -- .; git clean -fdq -- slimta; patch -p1 --fuzz=3 --no-backup-if-mismatch < "$d/patch.orig.diff" >/dev/null; }; then
+  rm -f "$d/.patch.cur"
   find . -name '*.orig' -newer "$d/patch.orig.diff" -delete 2>/dev/null
   git diff > "$d/patch.diff"; git checkout -- .; git clean -fdq -- slimta; echo "rebased with fuzz"
 else
-  git checkout -- .; git clean -fdq -- slimta; echo "MANUAL REBASE NEEDED"; exit 2
+  rm -f "$d/.patch.cur"; git checkout -- .; git clean -fdq -- slimta; echo "MANUAL REBASE NEEDED"; exit 2
 fi
